@@ -18,7 +18,7 @@ def run(chk):
     proved = chk.prove(MODULE, THEOREMS)
     if chk.tier == 'thorough' and proved:
         chk.leanchecker(MODULE)
-    n = 200 if chk.tier == 'thorough' else 40
+    n = 120 if chk.tier == 'thorough' else 40
     # shallow messages, header-layout variation is what matters here
     run = W.WireRun(chk, n, W.configs_for(chk.tier), values_per_msg=2, ext=False, seed_salt=17, max_depth=2)
     try:
